@@ -1,0 +1,12 @@
+//go:build verif
+
+// Contracts for package tracing (comment-only; compiled only with -tags verif).
+package tracing
+
+//@ type SpansIndex
+//@   nonnil spans
+
+//@ func (*tracing.SpansIndex).SpanForChannel {C20}
+//@   effectfree -- abstraction for callers: tracing has no effect on channels; the function itself is checked under C20
+//@ func (*tracing.SpansIndex).EndChannelSpan {C09,C20}
+//@   opaque -- boundary for callers: the call is logged, nothing is assumed about its result
